@@ -3453,6 +3453,11 @@ class RoConstr:
             raise RuntimeError('The support of random variables is undefined.')
         size_support = support.linear.shape[1]
         num_rand = min(num_rand, support.linear.shape[0])
+        if num_rand < self.raffine.shape[1]:
+            extra = self.raffine[:, num_rand:]
+            if extra.linear.count_nonzero() > 0 or np.any(extra.const):
+                raise RuntimeError('Random variables defined after ' +
+                                   'the uncertainty set.')
 
         dual_var = self.dec_model.dvar((num_constr, size_support))
 
